@@ -460,6 +460,478 @@ Section WalksCorrect.
     rewrite !nth_repeat_lt by exact Hi. auto.
   Qed.
 
+  (* ---------------------------------------------------------------- *)
+  (** * bfs mode: block bookkeeping (no hashing yet) *)
+
+  (* the y blocks that go with a list of x blocks, the first one numbered i *)
+  Fixpoint yblocks (i : nat) (xs : list (list state)) : list (list nat) :=
+    match xs with [] => [] | b :: t => repeat i (length b) :: yblocks (S i) t end.
+
+  (* every state of block number j is reachable in exactly j steps *)
+  Fixpoint blocksR (i : nat) (xs : list (list state)) : Prop :=
+    match xs with [] => True | b :: t => (forall s, In s b -> R i s) /\ blocksR (S i) t end.
+
+  Lemma yblocks_app xs : forall i b,
+    yblocks i (xs ++ [b]) = yblocks i xs ++ [repeat (i + length xs) (length b)].
+  Proof.
+    induction xs as [|a xs IH]; intros i b; simpl.
+    - rewrite Nat.add_0_r. reflexivity.
+    - rewrite IH. replace (S i + length xs) with (i + S (length xs)) by lia. reflexivity.
+  Qed.
+
+  Lemma blocksR_app xs : forall i b,
+    blocksR i (xs ++ [b]) <-> blocksR i xs /\ (forall s, In s b -> R (i + length xs) s).
+  Proof.
+    induction xs as [|a xs IH]; intros i b; simpl.
+    - rewrite Nat.add_0_r. tauto.
+    - rewrite IH. replace (S i + length xs) with (i + S (length xs)) by lia. tauto.
+  Qed.
+
+  Lemma yblocks_length xs : forall i, length (concat (yblocks i xs)) = length (concat xs).
+  Proof.
+    induction xs as [|b xs IH]; intros i; simpl; auto.
+    rewrite !app_length, repeat_length, IH. reflexivity.
+  Qed.
+
+  Lemma yblocks_nth xs : forall i0 i, i < length (concat xs) ->
+    exists j, j < length xs /\ nth i (concat (yblocks i0 xs)) 0 = i0 + j /\
+              In (nth i (concat xs) []) (nth j xs []).
+  Proof.
+    induction xs as [|b xs IH]; intros i0 i Hi; simpl in Hi; [lia|].
+    simpl concat. destruct (lt_dec i (length b)) as [Hlt | Hge].
+    - exists 0. simpl length. split; [lia|].
+      rewrite !app_nth1 by (rewrite ?repeat_length; lia).
+      rewrite nth_repeat_lt by lia. split; [lia|]. simpl. apply nth_In. exact Hlt.
+    - rewrite app_length in Hi.
+      destruct (IH (S i0) (i - length b) ltac:(lia)) as (j & Hj & Hy & Hx).
+      exists (S j). simpl length. split; [lia|].
+      rewrite !app_nth2 by (rewrite ?repeat_length; lia). rewrite repeat_length.
+      split; [lia | exact Hx].
+  Qed.
+
+  Lemma yblocks_nth_conv xs : forall i0 j t, In t (nth j xs []) ->
+    exists i, i < length (concat xs) /\ nth i (concat xs) [] = t /\
+              nth i (concat (yblocks i0 xs)) 0 = i0 + j.
+  Proof.
+    induction xs as [|b xs IH]; intros i0 j t Ht.
+    - destruct j; destruct Ht.
+    - simpl concat. destruct j as [|j].
+      + simpl in Ht. destruct (In_nth b t [] Ht) as (i & Hi & Hn).
+        exists i. rewrite app_length. split; [lia|].
+        rewrite (app_nth1 b) by lia.
+        rewrite (app_nth1 (repeat i0 (length b))) by (rewrite repeat_length; lia).
+        rewrite nth_repeat_lt by lia. split; [exact Hn | lia].
+      + simpl in Ht. destruct (IH (S i0) j t Ht) as (i & Hi & Hn & Hy).
+        exists (length b + i). rewrite app_length. split; [lia|].
+        rewrite (app_nth2 b) by lia.
+        rewrite (app_nth2 (repeat i0 (length b))) by (rewrite repeat_length; lia).
+        rewrite repeat_length.
+        replace (length b + i - length b) with i by lia. split; [exact Hn | lia].
+  Qed.
+
+  Lemma blocksR_nth xs : forall i0, blocksR i0 xs ->
+    forall j s, In s (nth j xs []) -> R (i0 + j) s.
+  Proof.
+    induction xs as [|b xs IH]; intros i0 Hb j s Hs.
+    - destruct j; destruct Hs.
+    - destruct Hb as [Hb1 Hb2]. destruct j as [|j]; simpl in Hs.
+      + rewrite Nat.add_0_r. auto.
+      + replace (i0 + S j) with (S i0 + j) by lia. eapply IH; eauto.
+  Qed.
+
+  (* ---------------------------------------------------------------- *)
+  (** * bfs mode: the hash set *)
+
+  Definition hs_has (data : list (list Z)) (h : Z) : Prop := exists part, In part data /\ In h part.
+  Definition hs_sorted (data : list (list Z)) : Prop := forall part, In part data -> sortedZ part.
+
+  Lemma hs_has_app data s h : hs_has (data ++ [s]) h <-> hs_has data h \/ In h s.
+  Proof.
+    unfold hs_has. split.
+    - intros (part & Hp & Hh). apply in_app_iff in Hp. destruct Hp as [Hp | [<- | []]]; eauto.
+    - intros [(part & Hp & Hh) | Hh].
+      + exists part. rewrite in_app_iff. auto.
+      + exists s. rewrite in_app_iff. simpl. auto.
+  Qed.
+
+  Lemma hs_add_has data s h : hs_has (hs_add data s) h <-> hs_has data h \/ In h s.
+  Proof.
+    rewrite <- hs_has_app. unfold hs_add. destruct (10 <=? length (data ++ [s])); [|reflexivity].
+    unfold hs_has. split.
+    - intros (part & [<- | []] & Hh).
+      eapply Permutation_in in Hh; [|apply sort_z_perm]. apply in_concat in Hh. exact Hh.
+    - intros Hh. exists (sort_z (concat (data ++ [s]))). split; [left; reflexivity|].
+      eapply Permutation_in; [symmetry; apply sort_z_perm|]. apply in_concat. exact Hh.
+  Qed.
+
+  Lemma hs_add_sorted data s : hs_sorted data -> sortedZ s -> hs_sorted (hs_add data s).
+  Proof.
+    intros Hd Hs. unfold hs_add. destruct (10 <=? length (data ++ [s])).
+    - intros part [<- | []]. apply sort_z_sorted.
+    - intros part Hp. apply in_app_iff in Hp. destruct Hp as [Hp | [<- | []]]; auto.
+  Qed.
+
+  Lemma hs_mask_eq data x : hs_mask data x = map (fun h => negb (seenb data h)) x.
+  Proof. reflexivity. Qed.
+
+  (* ---------------------------------------------------------------- *)
+  (** * bfs mode: one iteration, restated *)
+
+  Definition bfs_cand (st : wst) : list state * list Z :=
+    let nb := get_neighbors G (w_last st) in
+    let '(ns, nh) := get_unique_states G nb (hashes G nb) in
+    let mask := hs_mask (w_set st) nh in
+    (mask_select ns mask, mask_select nh mask).
+
+  Definition bfs_commit (i_step : nat) (st : wst) (ns : list state) (nh : list Z)
+             (perms : list (list nat)) (ok : bool) : wst :=
+    {| w_last := ns; w_set := hs_add (w_set st) nh; w_x := w_x st ++ [ns];
+       w_y := w_y st ++ [repeat i_step (length ns)]; w_perms := perms; w_ok := w_ok st && ok |}.
+
+  Definition thin {A} (d : A) (width : nat) (p : list nat) (l : list A) : list A :=
+    map (fun i => nth i l d) (thin_idx width p).
+
+  Lemma bfs_walk_iter_eq width i st :
+    bfs_walk_iter G width i st =
+    let '(ns, nh) := bfs_cand st in
+    match ns with
+    | [] => inr st
+    | _ => if width <? length ns then
+             match w_perms st with
+             | [] => inl (bfs_commit i st ns nh [] false)
+             | p :: rest => inl (bfs_commit i st (thin [] width p ns) (thin 0%Z width p nh) rest
+                                            (length p =? length ns))
+             end
+           else inl (bfs_commit i st ns nh (w_perms st) true)
+    end.
+  Proof.
+    unfold bfs_walk_iter, bfs_cand.
+    destruct (get_unique_states G (get_neighbors G (w_last st))
+                (hashes G (get_neighbors G (w_last st)))) as [u uh].
+    cbv zeta. destruct (mask_select u (hs_mask (w_set st) uh)) as [|a l]; [reflexivity|].
+    destruct (width <? length (a :: l)); [destruct (w_perms st)|]; reflexivity.
+  Qed.
+
+  (* ---------------------------------------------------------------- *)
+  (** * bfs mode: the invariant *)
+
+  Variable U : state -> Prop.
+  Hypothesis U_closed : closed state (acts G) U.
+  Hypothesis NoColl : forall a b, U a -> U b -> hashf G a = hashf G b -> a = b.
+  Hypothesis IdOK : is_identity G = true -> forall a, U a -> unword G (hashf G a) = a.
+  Hypothesis start_U : U start.
+
+  Record WInv (k : nat) (st : wst) : Prop := {
+    wi_x : exists xs, w_x st = xs ++ [w_last st] /\ length xs = k;
+    wi_hd : exists xs, w_x st = [start] :: xs;
+    wi_y : w_y st = yblocks 0 (w_x st);
+    wi_R : blocksR 0 (w_x st);
+    wi_nd : NoDup (concat (w_x st));
+    wi_U : forall s, In s (concat (w_x st)) -> U s;
+    wi_sorted : hs_sorted (w_set st);
+    wi_has : forall h, hs_has (w_set st) h <-> In h (map hf (concat (w_x st))) }.
+
+  Lemma winv_last_in k st : WInv k st -> forall s, In s (w_last st) -> In s (concat (w_x st)).
+  Proof.
+    intros [(xs & Hx & _) _ _ _ _ _ _ _] s Hs. rewrite Hx, concat_app, in_app_iff.
+    right. simpl. rewrite app_nil_r. exact Hs.
+  Qed.
+
+  Lemma winv_last_R k st : WInv k st -> forall s, In s (w_last st) -> R k s.
+  Proof.
+    intros [(xs & Hx & Hk) _ _ HR _ _ _ _] s Hs. rewrite Hx in HR.
+    apply blocksR_app in HR. destruct HR as [_ HR]. rewrite Hk in HR. simpl in HR. auto.
+  Qed.
+
+  Lemma winv_length k st : WInv k st -> length (w_x st) = S k.
+  Proof.
+    intros [(xs & Hx & Hk) _ _ _ _ _ _ _]. rewrite Hx, app_length. simpl. lia.
+  Qed.
+
+  Lemma winv_last_nth k st : WInv k st -> nth k (w_x st) [] = w_last st.
+  Proof.
+    intros [(xs & Hx & Hk) _ _ _ _ _ _ _]. rewrite Hx, app_nth2 by lia.
+    rewrite Hk, Nat.sub_diag. reflexivity.
+  Qed.
+
+  (* the candidate layer: the not yet seen neighbours of the last block *)
+  Lemma bfs_cand_spec k st ns nh :
+    WInv k st -> bfs_cand st = (ns, nh) ->
+    NoDup ns /\ nh = map hf ns /\ StronglySorted Z.lt nh /\
+    (forall t, In t ns <-> In t (get_neighbors G (w_last st)) /\ ~ In t (concat (w_x st))).
+  Proof.
+    intros Hinv. unfold bfs_cand.
+    assert (HnbU : forall t, In t (get_neighbors G (w_last st)) -> U t).
+    { apply (neighbors_U G U U_closed). intros s Hs. apply (wi_U k st Hinv).
+      eapply winv_last_in; eauto. }
+    destruct (get_unique_states G (get_neighbors G (w_last st))
+                (hashes G (get_neighbors G (w_last st)))) as [u uh] eqn:E.
+    apply (gus_spec G U NoColl IdOK) in E; [|exact HnbU].
+    destruct E as (Hnd & Hin & -> & Hs).
+    intros H. injection H as <- <-.
+    rewrite hs_mask_eq, mask_select_map, map_map.
+    rewrite (mask_select_filter (fun s => negb (seenb (w_set st) (hf s))) u).
+    destruct (filter_good G u (fun s => negb (seenb (w_set st) (hf s))) Hnd Hs) as [H1 H2].
+    split; [exact H1|]. split; [reflexivity|]. split; [exact H2|].
+    intros t. rewrite filter_In, negb_true_iff, Hin.
+    rewrite seenb_false_iff by (apply (wi_sorted k st Hinv)).
+    split; intros [Ht Hn]; split; auto.
+    - intros Hc. assert (Hh : hs_has (w_set st) (hf t)).
+      { apply (wi_has k st Hinv). apply in_map. exact Hc. }
+      destruct Hh as (part & Hp & Hh). exact (Hn part Hp Hh).
+    - intros part Hp Hh. apply Hn.
+      assert (Hh' : In (hf t) (map hf (concat (w_x st)))).
+      { apply (wi_has k st Hinv). exists part. auto. }
+      apply in_map_iff in Hh'. destruct Hh' as (t' & Heq & Ht').
+      assert (t' = t) by (apply NoColl; auto; apply (wi_U k st Hinv); exact Ht').
+      subst t'. exact Ht'.
+  Qed.
+
+  (* appending any strictly-hash-sorted, duplicate free part of the candidates keeps the invariant *)
+  Lemma bfs_commit_inv k st ns perms ok :
+    WInv k st ->
+    NoDup ns -> StronglySorted Z.lt (map hf ns) ->
+    (forall t, In t ns -> In t (get_neighbors G (w_last st)) /\ ~ In t (concat (w_x st))) ->
+    WInv (S k) (bfs_commit (S k) st ns (map hf ns) perms ok).
+  Proof.
+    intros Hinv Hnd Hs Hin.
+    pose proof (winv_length k st Hinv) as Hlen.
+    pose proof Hinv as Hinv'.
+    destruct Hinv as [(xs & Hx & Hk) (xs' & Hhd) Hy HR Hnd0 HU Hsorted Hhas].
+    assert (HnsU : forall t, In t ns -> U t).
+    { intros t Ht. apply Hin in Ht. destruct Ht as [Ht _].
+      apply (neighbors_U G U U_closed (w_last st)); auto.
+      intros s Hs'. apply HU. eapply winv_last_in; eauto. }
+    constructor; cbn [bfs_commit w_last w_set w_x w_y].
+    - exists (w_x st). split; [reflexivity | exact Hlen].
+    - exists (xs' ++ [ns]). rewrite Hhd. reflexivity.
+    - rewrite yblocks_app, Hy, Hlen. reflexivity.
+    - apply blocksR_app. split; [exact HR|]. rewrite Hlen. simpl.
+      intros s Hs'. apply Hin in Hs'. destruct Hs' as [Hs' _].
+      eapply neighbors_reach; [|exact Hs']. apply (winv_last_R k st Hinv').
+    - rewrite concat_app. simpl. rewrite app_nil_r. apply NoDup_app_intro; auto.
+      intros t Ht1 Ht2. apply Hin in Ht2. tauto.
+    - intros s. rewrite concat_app. simpl. rewrite app_nil_r, in_app_iff. intros [H | H]; auto.
+    - apply hs_add_sorted; [exact Hsorted | apply SSlt_le; exact Hs].
+    - intros h. rewrite hs_add_has, Hhas, concat_app. simpl.
+      rewrite app_nil_r, map_app, in_app_iff. reflexivity.
+  Qed.
+
+  (* thinning through SORTED in-range distinct positions *)
+  Lemma thin_spec width p ns :
+    NoDup p -> Forall (fun i => i < length p) p -> length p = length ns ->
+    StronglySorted Z.lt (map hf ns) ->
+    thin 0%Z width p (map hf ns) = map hf (thin [] width p ns) /\
+    NoDup (thin [] width p ns) /\ StronglySorted Z.lt (map hf (thin [] width p ns)) /\
+    (forall t, In t (thin [] width p ns) -> In t ns).
+  Proof.
+    intros Hnd Hr Hlen Hs. rewrite Hlen in Hr.
+    destruct (thin_idx_spec width p (length ns) Hnd Hr) as [Hi1 Hi2].
+    assert (Hal : thin 0%Z width p (map hf ns) = map hf (thin [] width p ns)).
+    { unfold thin. rewrite map_map. apply map_ext_in. intros i Hi.
+      rewrite Forall_forall in Hi2. apply (nth_map_lt hf ns []). auto. }
+    assert (Hss : StronglySorted Z.lt (map hf (thin [] width p ns))).
+    { rewrite <- Hal. unfold thin. apply select_SSlt; auto. rewrite map_length. exact Hi2. }
+    split; [exact Hal|]. split; [|split; [exact Hss|]].
+    - apply (NoDup_map_inv hf). apply SSlt_NoDup. exact Hss.
+    - intros t Ht. unfold thin in Ht. apply in_map_iff in Ht. destruct Ht as (i & <- & Hi).
+      apply nth_In. rewrite Forall_forall in Hi2. auto.
+  Qed.
+
+  Definition wperm_ok (p : list nat) : Prop := NoDup p /\ Forall (fun i => i < length p) p.
+
+  Lemma bfs_iter_inv width k st :
+    Forall wperm_ok (w_perms st) -> (w_ok st = true -> WInv k st) ->
+    match bfs_walk_iter G width (S k) st with
+    | inl st' => Forall wperm_ok (w_perms st') /\ (w_ok st' = true -> WInv (S k) st')
+    | inr st' => st' = st
+    end.
+  Proof.
+    intros Hp Hinv. rewrite bfs_walk_iter_eq.
+    destruct (bfs_cand st) as [ns nh] eqn:Ec.
+    destruct ns as [|a l]; [reflexivity|]. cbv iota.
+    set (ns := a :: l) in *. clearbody ns.
+    destruct (width <? length ns) eqn:Ew.
+    - destruct (w_perms st) as [|p rest] eqn:Ep.
+      + split; [constructor|]. cbn [bfs_commit w_ok]. rewrite andb_false_r. discriminate.
+      + split; [eapply Forall_inv_tail; exact Hp|].
+        cbn [bfs_commit w_ok]. intros Hok. apply andb_true_iff in Hok. destruct Hok as [Hok Hlen].
+        apply Nat.eqb_eq in Hlen. specialize (Hinv Hok).
+        destruct (bfs_cand_spec k st ns nh Hinv Ec) as (Hnd & -> & Hs & Hin).
+        destruct (Forall_inv Hp) as [Hp1 Hp2].
+        destruct (thin_spec width p ns Hp1 Hp2 Hlen Hs) as (Hal & Hnd' & Hs' & Hin').
+        rewrite Hal. apply bfs_commit_inv; auto.
+        intros t Ht. apply Hin. apply Hin'. exact Ht.
+    - split; [exact Hp|]. cbn [bfs_commit w_ok]. rewrite andb_true_r. intros Hok.
+      specialize (Hinv Hok).
+      destruct (bfs_cand_spec k st ns nh Hinv Ec) as (Hnd & -> & Hs & Hin).
+      apply bfs_commit_inv; auto. intros t Ht. apply Hin. exact Ht.
+  Qed.
+
+  Lemma bfs_loop_inv width steps : forall k st,
+    Forall wperm_ok (w_perms st) -> (w_ok st = true -> WInv k st) ->
+    w_ok (bfs_walk_loop G steps width (S k) st) = true ->
+    exists k', WInv k' (bfs_walk_loop G steps width (S k) st).
+  Proof.
+    induction steps as [|steps IH]; intros k st Hp Hinv; simpl.
+    - intros Hok. exists k. auto.
+    - pose proof (bfs_iter_inv width k st Hp Hinv) as Hit.
+      destruct (bfs_walk_iter G width (S k) st) as [st' | st'].
+      + destruct Hit as [Hp' Hinv']. apply IH; assumption.
+      + subst st'. intros Hok. exists k. auto.
+  Qed.
+
+  Definition wst0 (perms : list (list nat)) : wst :=
+    {| w_last := [start]; w_set := hs_add [] [hf start]; w_x := [[start]]; w_y := [[0]];
+       w_perms := perms; w_ok := true |}.
+
+  Lemma wst0_inv perms : WInv 0 (wst0 perms).
+  Proof.
+    constructor; cbn [wst0 w_last w_set w_x w_y].
+    - exists []. auto.
+    - exists []. auto.
+    - reflexivity.
+    - simpl. split; auto. intros s [<- | []]. constructor. left. reflexivity.
+    - simpl. constructor; [intros [] | constructor].
+    - simpl. intros s [<- | []]. exact start_U.
+    - apply hs_add_sorted; [intros part [] |]. constructor; constructor.
+    - intros h. rewrite hs_add_has. simpl. split.
+      + intros [(part & [] & _) | H]; exact H.
+      + intros H. right. exact H.
+  Qed.
+
+  Theorem walks_bfs_spec width length_ perms x y :
+    1 <= length_ -> 1 <= width ->
+    Forall (fun p => NoDup p /\ Forall (fun i => i < length p) p) perms ->
+    walks_bfs G width length_ start perms = Ok (x, y) ->
+    length x = length y /\ nth 0 x [] = start /\ nth 0 y 1 = 0 /\
+    NoDup x /\
+    (forall i, i < length x -> R (nth i y 0) (nth i x [])).
+  Proof.
+    intros _ _ Hp. unfold walks_bfs. fold (wst0 perms).
+    set (st := bfs_walk_loop G (length_ - 1) width 1 (wst0 perms)).
+    destruct (w_ok st) eqn:Hok; [|discriminate].
+    intros Heq. inversion Heq; subst x y; clear Heq.
+    destruct (bfs_loop_inv width (length_ - 1) 0 (wst0 perms) Hp (fun _ => wst0_inv perms) Hok)
+      as (k & Hinv).
+    fold st in Hinv.
+    destruct Hinv as [_ (xs & Hhd) Hy HR Hnd _ _ _].
+    rewrite Hy. split; [symmetry; apply yblocks_length|].
+    split; [rewrite Hhd; reflexivity|]. split; [rewrite Hhd; reflexivity|].
+    split; [exact Hnd|].
+    intros i Hi. destruct (yblocks_nth (w_x st) 0 i Hi) as (j & Hj & Hyj & Hxj).
+    rewrite Hyj. apply (blocksR_nth (w_x st) 0 HR j). exact Hxj.
+  Qed.
+
+  (* ---------------------------------------------------------------- *)
+  (** * bfs mode, wide and long enough: exactly the BFS layers *)
+
+  Local Notation L i := (layer state st_eq_dec (acts G) [start] i).
+
+  Definition ExInv (k : nat) (st : wst) : Prop :=
+    w_ok st = true /\ WInv k st /\ forall j, j <= k -> set_eq (nth j (w_x st) []) (L j).
+
+  (* with all earlier layers in the set, the candidates are exactly the next true layer *)
+  Lemma bfs_cand_layer k st ns nh :
+    ExInv k st -> bfs_cand st = (ns, nh) ->
+    NoDup ns /\ nh = map hf ns /\ StronglySorted Z.lt nh /\
+    (forall t, In t ns -> In t (get_neighbors G (w_last st)) /\ ~ In t (concat (w_x st))) /\
+    set_eq ns (L (S k)) /\ length ns = length (L (S k)).
+  Proof.
+    intros (Hok & Hinv & Hlay) Ec.
+    destruct (bfs_cand_spec k st ns nh Hinv Ec) as (Hnd & Hnh & Hs & Hin).
+    assert (Hset : set_eq ns (L (S k))).
+    { intros t. rewrite Hin, layer_succ_spec.
+      assert (H1 : In t (get_neighbors G (w_last st)) <-> In t (N state (acts G) (L k))).
+      { rewrite get_neighbors_spec, N_spec. rewrite <- (winv_last_nth k st Hinv).
+        split; intros (x & g & Hx & Hg & Ht); exists x, g; repeat split; auto;
+          apply (Hlay k (le_n k)); exact Hx. }
+      assert (H2 : In t (concat (w_x st)) <-> In t (seen_upto state st_eq_dec (acts G) [start] k)).
+      { rewrite in_concat_nth, seen_upto_spec, (winv_length k st Hinv). split.
+        - intros (j & Hj & Ht). exists j. split; [lia|]. apply (Hlay j); [lia | exact Ht].
+        - intros (j & Hj & Ht). exists j. split; [lia|]. apply (Hlay j); [lia | exact Ht]. }
+      rewrite H1, H2. reflexivity. }
+    repeat split; auto; try (apply Hin; assumption); try (apply Hset; assumption).
+    apply Permutation_length. apply NoDup_Permutation; auto. apply layer_NoDup.
+  Qed.
+
+  Lemma bfs_iter_ex width k st :
+    (forall i, length (L i) <= width) -> ExInv k st ->
+    match bfs_walk_iter G width (S k) st with
+    | inl st' => ExInv (S k) st'
+    | inr st' => st' = st /\ L (S k) = []
+    end.
+  Proof.
+    intros Hw Hex. rewrite bfs_walk_iter_eq.
+    destruct (bfs_cand st) as [ns nh] eqn:Ec.
+    destruct (bfs_cand_layer k st ns nh Hex Ec) as (Hnd & -> & Hs & Hin & Hset & Hlen).
+    destruct Hex as (Hok & Hinv & Hlay).
+    destruct ns as [|a l].
+    - split; [reflexivity|]. destruct (L (S k)) as [|b l']; [reflexivity | discriminate].
+    - cbv iota. set (ns := a :: l) in *. clearbody ns.
+      assert (Ew : width <? length ns = false).
+      { apply Nat.ltb_ge. rewrite Hlen. apply Hw. }
+      rewrite Ew. unfold ExInv. split; [|split].
+      + cbn [bfs_commit w_ok]. rewrite Hok. reflexivity.
+      + apply bfs_commit_inv; auto.
+      + cbn [bfs_commit w_x]. intros j Hj. pose proof (winv_length k st Hinv) as Hl.
+        destruct (Nat.eq_dec j (S k)) as [-> | Hne].
+        * rewrite app_nth2 by lia. rewrite Hl, Nat.sub_diag. exact Hset.
+        * rewrite app_nth1 by lia. apply Hlay. lia.
+  Qed.
+
+  Lemma bfs_loop_ex width steps : forall k st,
+    (forall i, length (L i) <= width) -> ExInv k st ->
+    exists k', ExInv k' (bfs_walk_loop G steps width (S k) st) /\
+               (k' = k + steps \/ L (S k') = []).
+  Proof.
+    induction steps as [|steps IH]; intros k st Hw Hex; simpl.
+    - exists k. split; auto.
+    - pose proof (bfs_iter_ex width k st Hw Hex) as Hit.
+      destruct (bfs_walk_iter G width (S k) st) as [st' | st'].
+      + destruct (IH (S k) st' Hw Hit) as (k' & Hex' & Hk'). exists k'. split; auto.
+        destruct Hk'; [left; lia | right; assumption].
+      + destruct Hit as [-> He]. exists k. split; auto.
+  Qed.
+
+  Lemma wst0_ex perms : ExInv 0 (wst0 perms).
+  Proof.
+    split; [reflexivity|]. split; [apply wst0_inv|].
+    intros j Hj. assert (j = 0) by lia. subst j. cbn [wst0 w_x nth].
+    intros t. rewrite layer_0, nodup_In. reflexivity.
+  Qed.
+
+  Theorem walks_bfs_exhaustive width length_ perms x y D :
+    1 <= width ->
+    (forall i, length (layer state st_eq_dec (acts G) [start] i) <= width) ->
+    layer state st_eq_dec (acts G) [start] (S D) = [] -> D < length_ ->
+    walks_bfs G width length_ start perms = Ok (x, y) ->
+    NoDup x /\
+    (forall t d, (exists i, i < length x /\ nth i x [] = t /\ nth i y 0 = d) <->
+                 In t (layer state st_eq_dec (acts G) [start] d)).
+  Proof.
+    intros _ Hw HD Hlen. unfold walks_bfs. fold (wst0 perms).
+    destruct (bfs_loop_ex width (length_ - 1) 0 (wst0 perms) Hw (wst0_ex perms))
+      as (k & (Hok & Hinv & Hlay) & Hk).
+    set (st := bfs_walk_loop G (length_ - 1) width 1 (wst0 perms)) in *.
+    rewrite Hok. intros Heq. inversion Heq; subst x y; clear Heq.
+    assert (Hempty : forall d, k < d -> L d = []).
+    { intros d Hd. destruct Hk as [Hk | Hk].
+      - apply (empty_layer_stays state st_eq_dec (acts G) [start] (S D) HD). lia.
+      - apply (empty_layer_stays state st_eq_dec (acts G) [start] (S k) Hk). lia. }
+    pose proof (winv_length k st Hinv) as Hl.
+    split; [apply (wi_nd k st Hinv)|].
+    intros t d. rewrite (wi_y k st Hinv). split.
+    - intros (i & Hi & <- & <-).
+      destruct (yblocks_nth (w_x st) 0 i Hi) as (j & Hj & Hyj & Hxj).
+      rewrite Hyj. simpl. apply (Hlay j); [lia | exact Hxj].
+    - intros Ht. destruct (le_lt_dec d k) as [Hd | Hd].
+      + apply (Hlay d Hd) in Ht.
+        destruct (yblocks_nth_conv (w_x st) 0 d t Ht) as (i & Hi & Hx & Hy).
+        exists i. repeat split; auto.
+      + rewrite (Hempty d Hd) in Ht. destruct Ht.
+  Qed.
+
 End WalksCorrect.
 
 (* the requested nbt statement is false without a generator when depth = 0 *)
@@ -474,3 +946,5 @@ Qed.
 
 Print Assumptions walks_classic_spec.
 Print Assumptions walks_nbt_spec.
+Print Assumptions walks_bfs_spec.
+Print Assumptions walks_bfs_exhaustive.
